@@ -13,7 +13,7 @@ ROOT = os.path.dirname(os.path.dirname(os.path.abspath(__file__)))
 EVIDENCE_DIR = os.path.join(ROOT, 'evidence')
 REPLAY_NEW = os.path.join(ROOT, 'replays', 'new')
 KNOWN_FILE = os.path.join(ROOT, 'known_findings.json')
-MAX_PRINT = 12
+MAX_PRINT = int(os.environ.get('VERIF_MAXPRINT', '12'))
 NCPU = int(os.environ.get('VERIF_JOBS', os.cpu_count() or 4))
 
 
